@@ -21,6 +21,14 @@ import (
 	"verifsim/sim"
 )
 
+// The deciding plugin rejects with shared sentinel errors, as plugins commonly do (gmqtt's own codes.ErrProtocol
+// etc. are sentinels too): the broker must not modify an error value it is handed.
+var (
+	errC14NotAuthorized = codes.NewError(codes.NotAuthorized)
+	errC14BadUser       = codes.NewError(codes.BadUserNameOrPassword)
+	errC14Banned        = &codes.Error{Code: codes.Banned}
+)
+
 // C14: hook decisions are enforced; plugin wrappers compose in the configured order.
 
 // c14Log is one entry of the call log written by the recording plugins.
@@ -115,9 +123,9 @@ func (p *c14Plugin) HookWrapper() server.HookWrapper {
 				if p.decides() {
 					switch string(req.Connect.Username) {
 					case "bad":
-						return codes.NewError(codes.BadUserNameOrPassword)
+						return errC14BadUser
 					case "banned":
-						return &codes.Error{Code: codes.Banned}
+						return errC14Banned
 					case "plainerr":
 						return errC14
 					}
@@ -134,14 +142,14 @@ func (p *c14Plugin) HookWrapper() server.HookWrapper {
 				if p.decides() {
 					switch string(req.Connect.Properties.AuthMethod) {
 					case "deny":
-						return nil, codes.NewError(codes.NotAuthorized)
+						return nil, errC14NotAuthorized
 					case "chal":
 						return &server.EnhancedAuthResponse{Continue: true, AuthData: []byte("challenge"), OnAuth: func(ctx context.Context, client server.Client, req *server.AuthRequest) (*server.AuthResponse, error) {
 							p.log("OnAuth", "enter", string(req.Auth.Properties.AuthData))
 							if string(req.Auth.Properties.AuthData) == "ok" {
 								return &server.AuthResponse{Continue: false}, nil
 							}
-							return nil, codes.NewError(codes.NotAuthorized)
+							return nil, errC14NotAuthorized
 						}}, nil
 					case "direct":
 						return &server.EnhancedAuthResponse{Continue: false}, nil
@@ -217,9 +225,9 @@ func (p *c14Plugin) HookWrapper() server.HookWrapper {
 					for _, t := range req.Subscribe.Topics {
 						switch {
 						case strings.HasPrefix(t.Name, "deny/whole"):
-							return codes.NewError(codes.NotAuthorized)
+							return errC14NotAuthorized
 						case strings.HasPrefix(t.Name, "deny/topic"):
-							req.Reject(t.Name, codes.NewError(codes.NotAuthorized))
+							req.Reject(t.Name, errC14NotAuthorized)
 						case strings.HasPrefix(t.Name, "down/"):
 							req.GrantQoS(t.Name, 0)
 						}
@@ -246,7 +254,7 @@ func (p *c14Plugin) HookWrapper() server.HookWrapper {
 				if p.decides() {
 					for _, t := range req.Unsubscribe.Topics {
 						if strings.HasPrefix(t, "keep/") {
-							req.Reject(t, codes.NewError(codes.NotAuthorized))
+							req.Reject(t, errC14NotAuthorized)
 						}
 					}
 				}
@@ -271,7 +279,7 @@ func (p *c14Plugin) HookWrapper() server.HookWrapper {
 				if p.decides() {
 					switch string(req.Publish.TopicName) {
 					case "m/reject":
-						return codes.NewError(codes.NotAuthorized)
+						return errC14NotAuthorized
 					case "m/drop":
 						req.Drop()
 					case "m/rewrite":
@@ -369,6 +377,7 @@ func init() {
 	register(&Check{ID: "C14", Gen: genC14, Oracle: oracleC14,
 		Setup: func(p *sim.Plan) *sim.Setup {
 			run := &c14Run{decider: p.Params["decider"], expose: map[string]bool{}, loads: map[string]int{}, unloads: map[string]int{}}
+			errC14NotAuthorized.Code, errC14BadUser.Code, errC14Banned.Code = codes.NotAuthorized, codes.BadUserNameOrPassword, codes.Banned
 			for _, e := range strings.Split(p.Params["expose"], ",") {
 				if e != "" {
 					run.expose[e] = true
@@ -508,6 +517,9 @@ func genC14(rng *rand.Rand, tier string) *sim.Plan {
 
 func oracleC14(p *sim.Plan, out *sim.Outcome) []sim.Violation {
 	vs := genericOracle(p, out)
+	if errC14NotAuthorized.Code != codes.NotAuthorized || errC14BadUser.Code != codes.BadUserNameOrPassword || errC14Banned.Code != codes.Banned {
+		vs = append(vs, viol("C14", "enforced", "hook-error-modified", "the broker modified an error value returned by a hook (reason codes now 0x%02x 0x%02x 0x%02x): the plugin's shared error values decide differently from now on", errC14NotAuthorized.Code, errC14BadUser.Code, errC14Banned.Code))
+	}
 	h := out.H
 	order := strings.Split(p.Params["order"], ",")
 	decider := p.Params["decider"]
